@@ -162,49 +162,91 @@ def rippleAdder (x y : List Nat) (nz : Nat) : BM (List Nat) := do
 /-- `ceil(log2 n)` as computed by `NewKoggeStoneAdder`. -/
 def ceilLog2 (n : Nat) : Nat := if n ≤ 1 then 0 else Nat.log2 (n - 1) + 1
 
-/-- `NewKoggeStoneAdder`. -/
-def ksAdder (x y : List Nat) (nz : Nat) : BM (List Nat) := do
+/-! Kogge-Stone prefix network, shared by the adder and the subtractor.  A
+position carries a pair `(p, g)` of wires (propagate, generate). -/
+
+/-- Pre-processing of `NewKoggeStoneAdder`: `p_i = x_i ⊕ y_i`, `g_i = x_i ∧ y_i`. -/
+def ksPre : List (Nat × Nat) → BM (List (Nat × Nat))
+  | [] => pure []
+  | (a, b) :: r => do
+    let p ← gate .xor a b
+    let g ← gate .and a b
+    let t ← ksPre r
+    pure ((p, g) :: t)
+
+/-- Black cells of one adder stage, for the positions `i ≥ shift`: the input is
+`((p_i, g_i), (p_{i-shift}, g_{i-shift}))`. -/
+def ksCellsA : List ((Nat × Nat) × (Nat × Nat)) → BM (List (Nat × Nat))
+  | [] => pure []
+  | ((pi, gi), (pj, gj)) :: r => do
+    let andG ← gate .and pi gj
+    let np ← gate .and pi pj
+    let ng ← gate .xor gi andG
+    let t ← ksCellsA r
+    pure ((np, ng) :: t)
+
+/-- Cells of one subtractor stage (same function, other gate order). -/
+def ksCellsS : List ((Nat × Nat) × (Nat × Nat)) → BM (List (Nat × Nat))
+  | [] => pure []
+  | ((pi, gi), (pj, gj)) :: r => do
+    let pg ← gate .and pi gj
+    let ng ← gate .xor gi pg
+    let np ← gate .and pi pj
+    let t ← ksCellsS r
+    pure ((np, ng) :: t)
+
+/-- One stage of the prefix network: positions below `shift` keep their pair,
+position `i ≥ shift` is combined with position `i - shift`. -/
+def ksStage (cells : List ((Nat × Nat) × (Nat × Nat)) → BM (List (Nat × Nat))) (shift : Nat)
+    (pg : List (Nat × Nat)) : BM (List (Nat × Nat)) := do
+  let hi ← cells ((pg.drop shift).zip pg)
+  pure (pg.take shift ++ hi)
+
+/-- `k` stages with shifts `shift, 2·shift, 4·shift, …`. -/
+def ksStages (cells : List ((Nat × Nat) × (Nat × Nat)) → BM (List (Nat × Nat))) :
+    Nat → Nat → List (Nat × Nat) → BM (List (Nat × Nat))
+  | 0, _, pg => pure pg
+  | k + 1, shift, pg => do
+    let pg' ← ksStage cells shift pg
+    ksStages cells k (2 * shift) pg'
+
+/-- Post-processing of the adder for the positions `i ≥ 1`:
+`z_i = (x_i ⊕ y_i) ⊕ g_{i-1}`. -/
+def ksPostA : List (Nat × Nat) → List Nat → BM (List Nat)
+  | (a, b) :: r, c :: cs => do
+    let xr ← gate .xor a b
+    let w ← gate .xor xr c
+    let t ← ksPostA r cs
+    pure (w :: t)
+  | _, _ => pure []
+
+/-- Width of the prefix network of `NewKoggeStoneAdder/Subtractor`:
+`max(len x, len y)`, plus one if the result is wider, truncated to `len z`. -/
+def ksWidth (nx ny nz : Nat) : Nat :=
+  if nz > max nx ny then max nx ny + 1 else nz
+
+/-- `NewKoggeStoneAdder` with an explicit number of prefix stages (the Go code
+uses `ceil(log2 n)`, `ksAdder` below). -/
+def ksAdderWith (stages : Nat) (x y : List Nat) (nz : Nat) : BM (List Nat) := do
   let n0 := max x.length y.length
   let n1 := if nz > n0 then n0 + 1 else n0
   let x ← pad x n1
   let y ← pad y n1
   let n := if x.length > nz then nz else n1
-  let x := (x.take n).toArray
-  let y := (y.take n).toArray
-  let mut p : Array Nat := #[]
-  let mut g : Array Nat := #[]
-  for i in [0:n] do
-    let pi ← gate .xor x[i]! y[i]!
-    let gi ← gate .and x[i]! y[i]!
-    p := p.push pi
-    g := g.push gi
-  for s in [0:ceilLog2 n] do
-    let shift := 2 ^ s
-    let mut np : Array Nat := #[]
-    let mut ng : Array Nat := #[]
-    for i in [0:n] do
-      if i < shift then
-        np := np.push p[i]!
-        ng := ng.push g[i]!
-      else
-        let andG ← gate .and p[i]! g[i - shift]!
-        let newP ← gate .and p[i]! p[i - shift]!
-        let newG ← gate .xor g[i]! andG
-        np := np.push newP
-        ng := ng.push newG
-    p := np
-    g := ng
-  let mut z : Array Nat := #[]
-  for i in [0:n] do
-    if i = 0 then
-      let w ← gate .xor x[i]! y[i]!
-      z := z.push w
-    else
-      let xr ← gate .xor x[i]! y[i]!
-      let w ← gate .xor xr g[i - 1]!
-      z := z.push w
-  let zs ← zeros (nz - n)
-  pure (z.toList ++ zs)
+  let xy := (x.take n).zip (y.take n)
+  let pg ← ksPre xy
+  let pg ← ksStages ksCellsA stages 1 pg
+  match xy with
+  | [] => zeros nz
+  | (a, b) :: rest => do
+    let z0 ← gate .xor a b
+    let zs ← ksPostA rest (pg.map Prod.snd)
+    let zr ← zeros (nz - n)
+    pure (z0 :: zs ++ zr)
+
+/-- `NewKoggeStoneAdder`: `numStages = ceil(log2 n)`. -/
+def ksAdder (x y : List Nat) (nz : Nat) : BM (List Nat) :=
+  ksAdderWith (ceilLog2 (ksWidth x.length y.length nz)) x y nz
 
 /-- `NewAdder`. -/
 def newAdder (gmw : Bool) (x y : List Nat) (nz : Nat) : BM (List Nat) :=
@@ -245,51 +287,49 @@ def rippleSubtractor (x y : List Nat) (nz : Nat) : BM (List Nat) := do
   let body ← rippleSub (x.zip y) cin keep
   pure (body ++ List.replicate (nz - (x.length + 1)) (body.getLastD 0))
 
-/-- `NewKoggeStoneSubtractor`. -/
-def ksSubtractor (x y : List Nat) (nz : Nat) : BM (List Nat) := do
+/-- Bitwise preparation of `NewKoggeStoneSubtractor`: `bInv = INV(y_i)`,
+`p_i = x_i ⊕ bInv`, `g_i = x_i ∧ bInv`. -/
+def ksPreS : List (Nat × Nat) → BM (List (Nat × Nat))
+  | [] => pure []
+  | (a, b) :: r => do
+    let bInv ← inv b
+    let p ← gate .xor a bInv
+    let g ← gate .and a bInv
+    let t ← ksPreS r
+    pure ((p, g) :: t)
+
+/-- Sum bits of the subtractor for the positions `i ≥ 1`: `z_i = pInit_i ⊕ g_{i-1}`. -/
+def ksPostS : List Nat → List Nat → BM (List Nat)
+  | p :: r, c :: cs => do
+    let w ← gate .xor p c
+    let t ← ksPostS r cs
+    pure (w :: t)
+  | _, _ => pure []
+
+/-- `NewKoggeStoneSubtractor` with an explicit number of prefix stages. -/
+def ksSubtractorWith (stages : Nat) (x y : List Nat) (nz : Nat) : BM (List Nat) := do
   let n0 := max x.length y.length
   let n1 := if nz > n0 then n0 + 1 else n0
   let x ← pad x n1
   let y ← pad y n1
   let n := if x.length > nz then nz else n1
-  let x := (x.take n).toArray
-  let y := (y.take n).toArray
-  let mut p : Array Nat := #[]
-  let mut g : Array Nat := #[]
-  for i in [0:n] do
-    let bInv ← inv y[i]!
-    let pi ← gate .xor x[i]! bInv
-    let gi ← gate .and x[i]! bInv
-    p := p.push pi
-    g := g.push gi
-  let pInit := p
-  let w ← gate .xor g[0]! p[0]!
-  g := g.set! 0 w
-  -- for step := 1; step < n; step *= 2
-  for k in [0:ceilLog2 n] do
-    let step := 2 ^ k
-    let mut np : Array Nat := #[]
-    let mut ng : Array Nat := #[]
-    for i in [0:n] do
-      if i < step then
-        np := np.push p[i]!
-        ng := ng.push g[i]!
-      else
-        let pg ← gate .and p[i]! g[i - step]!
-        let w ← gate .xor g[i]! pg
-        let w2 ← gate .and p[i]! p[i - step]!
-        ng := ng.push w
-        np := np.push w2
-    p := np
-    g := ng
-  let mut z : Array Nat := #[]
-  let z0 ← inv pInit[0]!
-  z := z.push z0
-  for i in [1:n] do
-    let w ← gate .xor pInit[i]! g[i - 1]!
-    z := z.push w
-  -- leftover bits: copies of z[n-1] (the borrow)
-  pure (z.toList ++ List.replicate (nz - n) z[n - 1]!)
+  let xy := (x.take n).zip (y.take n)
+  let pg ← ksPreS xy
+  match pg with
+  | [] => zeros nz
+  | (p0, g0) :: rest => do
+    -- carry-in 1 of the two's complement: g_0 := g_0 ⊕ p_0
+    let w ← gate .xor g0 p0
+    let pgN ← ksStages ksCellsS stages 1 ((p0, w) :: rest)
+    let z0 ← inv p0
+    let zs ← ksPostS (rest.map Prod.fst) (pgN.map Prod.snd)
+    let z := z0 :: zs
+    -- leftover bits: copies of z[n-1] (the borrow)
+    pure (z ++ List.replicate (nz - n) (z.getLastD 0))
+
+/-- `NewKoggeStoneSubtractor`: `for step := 1; step < n; step *= 2`. -/
+def ksSubtractor (x y : List Nat) (nz : Nat) : BM (List Nat) :=
+  ksSubtractorWith (ceilLog2 (ksWidth x.length y.length nz)) x y nz
 
 /-- `NewSubtractor`. -/
 def newSubtractor (gmw : Bool) (x y : List Nat) (nz : Nat) : BM (List Nat) :=
@@ -544,67 +584,99 @@ def halfAdder (a b : Nat) : BM (Nat × Nat) := do
 /-- `NewFullAdder` with a carry wire. -/
 def fullAdder' (a b cin : Nat) : BM (Nat × Nat) := fullAdder a b cin true
 
-/-- `NewArrayMultiplier`.  The result wires are collected in an array of
-options (`none` = a wire the builder leaves unconnected; after the surplus-bit
-fix `z[i] = cc.ZeroWire()` every result wire is connected). -/
-def arrayMultiplierOpt (x y : List Nat) (nz : Nat) : BM (Array (Option Nat)) := do
-  let p ← zeroPad x y
-  let x := (p.1.take nz).toArray
-  let y := (p.2.take nz).toArray
-  let n := x.size
-  let mut z : Array (Option Nat) := Array.replicate nz none
-  if n = 1 then
-    let w ← gate .and x[0]! y[0]!
-    z := z.set! 0 (some w)
-    for i in [1:nz] do
-      let zw ← zeroWire
-      z := z.set! i (some zw)
-    return z
-  -- Y0 sums
-  let mut sums : Array Nat := #[]
-  for i in [0:n] do
-    let s ← gate .and x[i]! y[0]!
-    if i = 0 then z := z.set! 0 (some s) else sums := sums.push s
-  -- intermediate layers j = 1 .. len(y)-2
-  let mut jj := 1
-  for j in [1:n - 1] do
-    jj := j + 1
-    let mut ands : Array Nat := #[]
-    for i in [0:n] do
-      let w ← gate .and x[i]! y[j]!
-      ands := ands.push w
-    let mut nsums : Array Nat := #[]
-    let mut c := 0
-    for i in [0:n] do
-      let r ← (if i = 0 then halfAdder ands[i]! sums[i]!
-        else if i ≥ sums.size then halfAdder ands[i]! c
-        else fullAdder' ands[i]! sums[i]! c)
-      if i = 0 then z := z.set! j (some r.1) else nsums := nsums.push r.1
-      c := r.2
-    sums := nsums.push c
-  -- final layer
-  let j := jj
-  let mut c := 0
-  for i in [0:n] do
-    let a ← gate .and x[i]! y[j]!
-    if j + i < nz then
-      -- cout is z[j+i+1] for the last position (when it exists), else a fresh wire
-      let r ← (if i = 0 then halfAdder a sums[i]!
-        else if i ≥ sums.size then halfAdder a c
-        else fullAdder' a sums[i]! c)
-      z := z.set! (j + i) (some r.1)
-      if i + 1 ≥ n && j + i + 1 < nz then z := z.set! (j + i + 1) (some r.2)
-      c := r.2
-  for i in [j + n + 1:nz] do
-    let zw ← zeroWire
-    z := z.set! i (some zw)
-  return z
+/-! `NewArrayMultiplier`, as structural recursion over the rows of the array
+(row `j` adds `x · y_j · 2^j` to the running sum). -/
 
-/-- `NewArrayMultiplier` as a list of result wires (`none` if some result wire
-were left unconnected, which no longer happens). -/
-def arrayMultiplier (x y : List Nat) (nz : Nat) : BM (Option (List Nat)) := do
-  let z ← arrayMultiplierOpt x y nz
-  pure (z.toList.mapM id)
+/-- The AND row `x_i ∧ y_j` for all `i`. -/
+def amAnds (yj : Nat) : List Nat → BM (List Nat)
+  | [] => pure []
+  | xb :: xs => do
+    let a ← gate .and xb yj
+    let r ← amAnds yj xs
+    pure (a :: r)
+
+/-- Adder cells `i ≥ 1` of an intermediate row: full adder `(ands_i, sums_i, c)`,
+half adder `(ands_i, c)` where `sums` has run out (first row: `sums` has one
+element less).  Returns the sum bits and the last carry. -/
+def amRowCells : List Nat → List Nat → Nat → BM (List Nat × Nat)
+  | [], _, c => pure ([], c)
+  | a :: as, [], c => do
+    let r ← halfAdder a c
+    let t ← amRowCells as [] r.2
+    pure (r.1 :: t.1, t.2)
+  | a :: as, sm :: sms, c => do
+    let r ← fullAdder' a sm c
+    let t ← amRowCells as sms r.2
+    pure (r.1 :: t.1, t.2)
+
+/-- One intermediate row: returns the result bit `z[j]` and the new sums
+("new sums with carry as the highest bit"). -/
+def amRow : List Nat → List Nat → BM (Nat × List Nat)
+  | a0 :: as, s0 :: ss => do
+    let r ← halfAdder a0 s0
+    let t ← amRowCells as ss r.2
+    pure (r.1, t.1 ++ [t.2])
+  | _, sums => pure (0, sums)
+
+/-- The intermediate rows `j = 1 .. len(y)-2`. -/
+def amRows (x : List Nat) : List Nat → List Nat → BM (List Nat × List Nat)
+  | [], sums => pure ([], sums)
+  | yj :: ys, sums => do
+    let ands ← amAnds yj x
+    let r ← amRow ands sums
+    let t ← amRows x ys r.2
+    pure (r.1 :: t.1, t.2)
+
+/-- Cells `i ≥ 1` of the final row: the AND gate is emitted for every `i`, the
+adder only while the result position exists (`lim` positions left). -/
+def amFinalCells (yl : Nat) : List Nat → List Nat → Nat → Nat → BM (List Nat × Nat)
+  | [], _, c, _ => pure ([], c)
+  | xb :: xs, sums, c, lim => do
+    let a ← gate .and xb yl
+    match lim with
+    | 0 => amFinalCells yl xs sums.tail c 0
+    | lim + 1 => do
+      let r ← (match sums with
+        | [] => halfAdder a c
+        | sm :: _ => fullAdder' a sm c)
+      let t ← amFinalCells yl xs sums.tail r.2 lim
+      pure (r.1 :: t.1, t.2)
+
+/-- The final row `j = len(y)-1`: result bits `z[j ..]` as far as they exist
+(`lim = len(z) - j` positions), including the last carry when `lim > len(x)`. -/
+def amFinal (yl : Nat) (x sums : List Nat) (lim : Nat) : BM (List Nat) :=
+  match x, sums with
+  | x0 :: xs, s0 :: ss => do
+    let a ← gate .and x0 yl
+    match lim with
+    | 0 => do
+      let _ ← amFinalCells yl xs ss 0 0
+      pure []
+    | lim + 1 => do
+      let r ← halfAdder a s0
+      let t ← amFinalCells yl xs ss r.2 lim
+      pure (r.1 :: t.1 ++ (if lim ≥ x.length then [t.2] else []))
+  | _, _ => pure []
+
+/-- `NewArrayMultiplier`. -/
+def arrayMultiplier (x y : List Nat) (nz : Nat) : BM (List Nat) := do
+  let p ← zeroPad x y
+  let x := p.1.take nz
+  let y := p.2.take nz
+  match x, y with
+  | [x0], y0 :: _ => do
+    -- one bit multiplication is AND
+    let w ← gate .and x0 y0
+    let zs ← zeros (nz - 1)
+    pure (w :: zs)
+  | x0 :: xs, y0 :: ys => do
+    let n := x.length
+    let row0 ← amAnds y0 (x0 :: xs)
+    let mid ← amRows x ys.dropLast row0.tail
+    let fin ← amFinal (ys.getLastD 0) x mid.2 (nz - (n - 1))
+    let zs ← zeros (nz - 2 * n)
+    pure (row0.headD 0 :: mid.1 ++ fin ++ zs)
+  | _, _ => zeros nz
 
 /-- `Compiler.ShiftLeft(w, size, count)`. -/
 def shiftLeft (w : List Nat) (size count : Nat) : BM (List Nat) := do
@@ -621,7 +693,7 @@ def karatsuba (gmw : Bool) (limit : Nat) : Nat → List Nat → List Nat → Nat
     let p ← zeroPad a b
     let a := p.1.take nr
     let b := p.2.take nr
-    if a.length ≤ limit then arrayMultiplier a b nr else do
+    if a.length ≤ limit then (do let r ← arrayMultiplier a b nr; pure (some r)) else do
     let mid := a.length / 2
     let aLow := a.take mid
     let aHigh := a.drop mid
@@ -704,6 +776,66 @@ def newMultiplier (gmw : Bool) (x y : List Nat) (nz : Nat) : BM (Option (List Na
     pure (some r)
   else karatsuba false (multiplierArrayThreshold x.length) (2 * (max x.length y.length) + 8) x y nz
 
+/-! ### circ_divider.go -/
+
+/-- Loop of `NewUDividerLong` over the dividend bits from the most significant
+one (`as.length` is the index `i` of the head).  `r` is the running remainder
+(`len(a)` wires), `nq` the number of quotient wires.  Returns the quotient bits
+(little endian, positions `< nq`) and the final remainder wires. -/
+def divLongLoop (gmw : Bool) (b : List Nat) (nq : Nat) : List Nat → List Nat → BM (List Nat × List Nat)
+  | [], r => pure ([], r)
+  | ai :: as, r => do
+    -- r << 1, r[0] = a[i]
+    let r1 := ai :: r.dropLast
+    -- r - b with one extra bit: the borrow says r < b
+    let diff ← newSubtractor gmw r1 b (r1.length + 1)
+    let borrow := diff.getLastD 0
+    let qbit ← (if as.length < nq then do
+        let z ← zeroWire
+        let o ← oneWire
+        muxBits borrow [(z, o)]
+      else pure [])
+    let nr ← muxBits borrow (r1.zip diff.dropLast)
+    let t ← divLongLoop gmw b nq as nr
+    pure (t.1 ++ qbit, t.2)
+
+/-- `NewUDividerLong(cc, a, b, q, rret)` for `len(q), len(rret) ≤ max(len a, len b)`
+(wider results stay unconnected in the Go code).  Returns `q ‖ rret`. -/
+def uDividerLong (gmw : Bool) (a b : List Nat) (nq nr : Nat) : BM (List Nat × List Nat) := do
+  let p ← zeroPad a b
+  let r0 ← zeros p.1.length
+  let t ← divLongLoop gmw p.2 nq p.1.reverse r0
+  pure (t.1, t.2.take nr)
+
+/-- `NewIDivider(cc, a, b, q, r)` on the Yao target (`NewUDivider` =
+`NewUDividerLong`), `len(q), len(r) ≤ max(len a, len b)`. -/
+def iDivider (gmw : Bool) (a b : List Nat) (nq nr : Nat) : BM (List Nat × List Nat) := do
+  let p ← zeroPad a b
+  let a := p.1
+  let b := p.2
+  let zero ← zeroWire
+  let neg0 := zero
+  -- if a is negative: neg = !neg, a = -a
+  let neg1 ← inv neg0
+  let a1 ← newSubtractor gmw [zero] a a.length
+  let sa := a.getLastD 0
+  let neg2 ← muxBits sa [(neg1, neg0)]
+  let a2 ← muxBits sa (a1.zip a)
+  let neg2w := neg2.getD 0 0
+  -- if b is negative: neg = !neg, b = -b
+  let neg3 ← inv neg2w
+  let b1 ← newSubtractor gmw [zero] b b.length
+  let sb := b.getLastD 0
+  let neg4 ← muxBits sb [(neg3, neg2w)]
+  let b2 ← muxBits sb (b1.zip b)
+  if nq = 0 then
+    uDividerLong gmw a2 b2 0 nr
+  else do
+    let d ← uDividerLong gmw a2 b2 nq nr
+    let q1 ← newSubtractor gmw [zero] d.1 nq
+    let q ← muxBits (neg4.getD 0 0) (q1.zip d.1)
+    pure (q, d.2)
+
 /-! ### Semantics -/
 
 /-- Value list after the gates: the value of wire `w` is at index `w`. -/
@@ -759,15 +891,6 @@ def runBuilder (b : List Nat → List Nat → BM (List Nat)) (pro : Bool) (nx ny
   let r := b (inputWires 0 nx) (inputWires nx ny) s0
   let o := retWires r.1 r.2
   (o.2, o.1)
-
-/-- `NewArrayMultiplier` as `Circuit.Compute` sees it: a result wire that the
-builder leaves unconnected reads 0 (the wire store is zero-initialised). -/
-def evalArrayMult (pro : Bool) (x y : List Bool) (nz : Nat) : List Bool :=
-  let s0 := initSt (x.length + y.length) pro
-  let r := arrayMultiplierOpt (inputWires 0 x.length) (inputWires x.length y.length) nz s0
-  r.1.toList.map fun o => match o with
-    | some w => r.2.val (x ++ y) w
-    | none => false
 
 /-- Three-operand variant (`NewMUX`: condition `w`): inputs `x ‖ y ‖ w`. -/
 def evalBuilder3 (b : List Nat → List Nat → List Nat → BM (List Nat)) (pro : Bool) (x y w : List Bool) :
